@@ -87,7 +87,14 @@ def main():
         name = op["op"]
         if name == "new":
             problem = make_problem(spec["problem"])
-            solver = cls(problem, **spec["solver_kw"])
+            if op.get("config_with_other_problem"):
+                # a configuration object whose problem field still describes ANOTHER problem (e.g. reused from an
+                # earlier solver) passed together with the problem instance: the instance is what is solved
+                other = make_problem(op["config_with_other_problem"])
+                cfg = cls.Config(problem=other.config, **spec["solver_kw"])
+                solver = cls(problem=problem, config=cfg)
+            else:
+                solver = cls(problem, **spec["solver_kw"])
             _verif.emit("x_new", solver=solver, config=config_text(solver),
                         ckpt_enabled=bool(solver.is_checkpointing_enabled))
         elif name == "restore":
@@ -137,6 +144,11 @@ def main():
                 solver.solve(max_iterations=op["k"])
             except Exception as ex:
                 _verif.emit("x_solve_failed", exc=type(ex).__name__, msg=str(ex)[:300])
+        elif name == "interloper":
+            # an unrelated solver instance (never solved): global logging / precision state must not matter
+            from mdpax.problems import Forest
+            from mdpax.solvers import ValueIteration as _VI
+            _VI(Forest(S=3), verbose=op.get("verbose", 3), gamma=0.5)
         elif name == "wait":
             if solver is not None and getattr(solver, "checkpoint_manager", None) is not None:
                 solver.checkpoint_manager.wait_until_finished()
